@@ -354,6 +354,22 @@ func famTermination(w *World, c *Case, rng *rand.Rand) {
 			w.Violate("C04", "stop-not-returned"+wedged, "Stop() has not returned an hour after it was called")
 		}
 	}
+	// Every library call that was blocked when the tunnel ended has returned by now - judged before
+	// the scripts' own waits are released, because a caller that starts reading again can free a
+	// parked receive loop and so finish what the end of the tunnel should have finished.
+	if wedged != "" {
+		if n := len(w.Env.Log.OpenOps()); n > 0 {
+			w.Violate("C04", "in-flight-ops-not-ended:"+cause+wedged, "cause %s at frame %d (%s): %d operation(s) still blocked an hour later", cause, k, w.Cfg, n)
+		}
+	} else {
+		for _, r := range w.Env.Log.OpenOps() {
+			if r.K == "ctxwait" {
+				w.Violate("C04", "handler-ctx-not-cancelled:"+cause, "cause %s at frame %d: handler %s context was not cancelled", cause, k, r.RPC)
+			} else {
+				w.Violate("C04", "op-hangs:"+r.Side+":"+r.K, "cause %s at frame %d (%s): %s op %s[%d] of rpc %s still blocked an hour later (before the scripts' own waits were released)", cause, k, w.Cfg, r.Side, r.K, r.Idx, r.RPC)
+			}
+		}
+	}
 	// every operation returned; every RPC not completed before is non-OK
 	w.Env.Signal("never")
 	w.Advance(time.Second)
